@@ -203,7 +203,7 @@ class Spectrum(numpy.ma.masked_array):
         """
         Unmask all values.
         """
-        self.mask[[slice(None)]*self.Npop] = False
+        self.mask[tuple([slice(None)]*self.Npop)] = False
 
     def _get_sample_sizes(self):
         return numpy.asarray(self.shape) - 1
